@@ -906,6 +906,20 @@ def gen_cases(run, impl):
         for r in range(0, len(mem) + 1):
             for sub in itertools.combinations(mem, r):
                 mk(cname, {k: c() for k, c in sub}, oneof=len(sub))
+                # the same subsets with members passed POSITIONALLY (attrs binds positional arguments to the fields in
+                # declared order; the Coq term is the keyword form): all positional, and the first one positional only
+                names = [k for k, _ in mem]
+                if sub:
+                    last = max(names.index(k) for k, _ in sub) + 1
+                    first = min(names.index(k) for k, _ in sub) + 1
+                    for npos in sorted({last, first}):
+                        kw = {n: None for n in names[:npos]}
+                        kw.update({k: c() for k, c in sub})
+                        cls = impl.classes[cname]
+                        add("mk", f'CMk "{cname}" {kw_term(kw)}',
+                            (lambda cls=cls, kw=kw, names=names, npos=npos:
+                             (lambda k: cls(*[k.pop(n) for n in names[:npos]], **k))(copy.deepcopy(kw))),
+                            cls=cname, kw=kw, npos=npos, twice=True, oneof=len(sub))
     for w in ["ConvNeXt_Tiny_Weights", "Swin_T_Weights", "X", None]:
         for fam, c in members["BackboneConfig"] + [(None, None)]:
             bb = M.BackboneConfig(**({fam: c()} if fam else {}))
@@ -980,6 +994,42 @@ def gen_cases(run, impl):
            "geometry_aug": {"rotation": NAN, "scale": (INF, 1.0), "mixup_lambda": [0.125, NAN]}},
           {"head_configs": "bottomup"}, {})
     chain({}, {"head_configs": None}, {})
+    # -- G6m: MISTYPED scalars (outside the documented argument types): OmegaConf's typed nodes CONVERT a scalar of
+    # another type instead of rejecting it (123 at a str option -> "123", "12" at an int option -> 12, 2 / "Yes" at a
+    # bool option -> True, typed list elements likewise) or raise ValidationError; the model (CfgTree.coerce_scalar)
+    # must agree case by case, and normalisation / the YAML round trip must be the identity on whatever comes out.
+    # (float at a str option and int()/float() of unusual strings are `Unmodelled` in Coq: not generated.)
+    str_opts = [("d", "provider"), ("d", "np_chunks_path"), ("t", "wandb_name"), ("t", "save_ckpt_path"), ("t", "trainer_accelerator"),
+                ("m", "pretrained_head_weights")]
+    int_opts = [("d", "chunk_size"), ("d", "max_height"), ("t", "max_epochs"), ("t", "ckpt_save_top_k"), ("t", "early_stopping_patience")]
+    bool_opts = [("d", "is_rgb"), ("d", "user_instances_only"), ("d", "use_existing_chunks"), ("t", "shuffle_train"),
+                 ("t", "enable_progress_bar"), ("t", "save_ckpt"), ("t", "amsgrad")]
+    mist = [(str_opts, [123, -5, 0, True, False, NAN, INF, -INF, 2 ** 70]),
+            (int_opts, ["12", "-3", "+7", "007", "abc", "1e3", "", "0x1F", 1.5, 2.0, True, "-"]),
+            (bool_opts, [1, 0, 2, -1, "true", "Yes", "OFF", "n", "1", "0", "-0", "abc", "maybe", 1.0, NAN, "on"])]
+    for opts, vals in mist:
+        vals = list(vals)
+        rng.shuffle(vals)
+        for i, v in enumerate(vals):
+            w, p = opts[i % len(opts)] if i < len(opts) else rng.choice(opts)
+            kws = {"d": {}, "m": {"head_configs": rng.choice(HEAD_ORDER)}, "t": {}}
+            kws[w][p] = v
+            chain(kws["d"], kws["m"], kws["t"], mistyped=[p])
+    for crop in [("1", 2), (1.5, 2), (None, 1), (True, 2), [1, 2, 3], ("12", "34")]:
+        chain({"crop_hw": crop}, {"head_configs": rng.choice(HEAD_ORDER)}, {}, mistyped=["crop_hw"])
+    for ga in [{"scale": [1, 2]}, {"mixup_lambda": [0, 1]}, {"scale": ["1", 2]}, {"rotation": "15"}, {"scale": (1, True)},
+               {"mixup_lambda": [None, 0.5]}]:
+        chain({"use_augmentations_train": True, "geometry_aug": ga}, {"head_configs": rng.choice(HEAD_ORDER)}, {},
+              mistyped=["geometry_aug"])
+    for ia in [{"brightness": (1, 2)}, {"brightness": ("1", 2.5)}]:
+        chain({"use_augmentations_train": True, "intensity_aug": ia}, {"head_configs": rng.choice(HEAD_ORDER)}, {},
+              mistyped=["intensity_aug"])
+    for hd in [{"single_instance": {"confmaps": {"part_names": [1, "a"], "sigma": 2, "output_stride": "2"}}},
+               {"centroid": {"confmaps": {"anchor_part": 3, "sigma": 2.5, "output_stride": 2}}},
+               {"bottomup": {"confmaps": {"part_names": [True, "b"]}, "pafs": {"edges": [[1, 2], ["a", False]]}}},
+               {"single_instance": {"confmaps": {"part_names": [None], "sigma": 2.5, "output_stride": 2}}}]:
+        chain({}, {"head_configs": hd}, {}, mistyped=["head_configs"])
+    chain({}, {"head_configs": "centroid"}, {"early_stopping_min_delta": "15", "wandb_project": 7}, mistyped=["early_stopping_min_delta", "wandb_project"])
     # -- G7: the public entry point train(...): every parameter forwarded to the right builder parameter
     def train_case(kw, **meta):
         parts = {b: {k: v for k, v in kw.items() if k in sent[b]} for b in sent}
@@ -1050,6 +1100,21 @@ def norm_cases(impl, conts, rng, n):
         d["data_config"]["preprocessing"]["scale"] = -1.0
         d["data_config"]["augmentation_config"] = {"intensity": {"contrast_p": 1.5}, "geometric": {"affine_p": float("nan")}}
         add(d, "invalid scale and probabilities in the container")
+        # top-level values against the declared field: a scalar / None at a section is rejected, a dict / list node is
+        # taken verbatim at ANY field, a non-string scalar at a str field is CONVERTED (normalisation is the identity on
+        # built configurations only).  (A float at a str field is `Unmodelled` in Coq: not generated.)
+        d = copy.deepcopy(cont)
+        sec2 = rng.choice(["data_config", "model_config", "trainer_config"])
+        d[sec2] = rng.choice([3, "abc", None, True, 1.5, 0])
+        add(d, f"scalar at section {sec2}")
+        d = copy.deepcopy(cont)
+        d[rng.choice(["data_config", "model_config", "trainer_config"])] = rng.choice([[], {}, [1, "a"], {"bogus": {"x": 1}}])
+        add(d, "list / other dict at a section")
+        for _ in range(2):
+            d = copy.deepcopy(cont)
+            fld = rng.choice(["name", "description", "filename", "sleap_nn_version"])
+            d[fld] = rng.choice([123, -5, 0, True, False, float("nan"), float("-inf"), None, [1], {"a": 1}, "???", 2 ** 70, "x y"])
+            add(d, f"non-string value at {fld}")
     return out
 
 
@@ -1224,7 +1289,7 @@ def _check(run, impl, summary, built, join_perrun):
     def report(c, why, selector=None):
         nonlocal n_fail
         n_fail += 1
-        rep = {"case": {k: c[k] for k in c if k in ("kind", "builder", "kw", "cls", "dkw", "mkw", "tkw", "what", "plain")},
+        rep = {"case": {k: c[k] for k in c if k in ("kind", "builder", "kw", "cls", "npos", "dkw", "mkw", "tkw", "what", "plain")},
                "term": c["term"], "impl": c["impl"], "model": c.get("model"), "oracle": why}
         run.violation("failing-input", json.loads(json.dumps(rep, default=repr)), selector=selector)
 
@@ -1329,7 +1394,8 @@ def _check(run, impl, summary, built, join_perrun):
                 report(c, f"{c['cls']} with {c['oneof']} members set: accepted={accepted}")
         elif c["kind"] in ("chain", "train"):
             preset = c["mkw"].get("backbone_config")
-            documented = (c["dkw"].get("scale") is None or isinstance(c["dkw"].get("scale"), float))
+            mistyped = c.get("mistyped")      # arguments outside the documented types: the property says nothing about them
+            documented = (c["dkw"].get("scale") is None or isinstance(c["dkw"].get("scale"), float)) and not mistyped
             if "err" in out:
                 if documented:
                     sel = SEL_F13 if (out["err"] == "ValidationError" and isinstance(preset, str)
@@ -1352,11 +1418,13 @@ def _check(run, impl, summary, built, join_perrun):
                     report(c, "verify_training_cfg after the YAML round trip changed a value")
                 # the container holds what the builders produced (only int->float, tuple->list forgotten)
                 for sec, tree in ex["attrs"].items():
-                    if loose(cget(flags["cfg"], (sec,))) != loose(tree):
+                    if not mistyped and loose(cget(flags["cfg"], (sec,))) != loose(tree):
                         report(c, f"to_sleap_nn_cfg changed a value under {sec}")
                 # arguments at their documented place in the training configuration
                 for b, kwn in (("get_data_config", "dkw"), ("get_model_config", "mkw"), ("get_trainer_config", "tkw")):
                     for p, v in c[kwn].items():
+                        if mistyped and p in mistyped:
+                            continue
                         for path in PASS[b].get(p, []):
                             got = cget(flags["cfg"], (SECTION[b],) + path)
                             if got is KeyError or loose(got) != loose(canon(v)):
@@ -1397,9 +1465,11 @@ def _check(run, impl, summary, built, join_perrun):
         if st is not None:
             run.coverage["perrun_status"] = st
             run.coverage["live_theorems"] = {
-                "F12": "aug_lists_full" if st["aug_geo_full"] else "aug_lists_refuted + aug_lists_partial",
-                "F16": "convnext_sizes_full" if st["convnext_sizes_validated"] else "convnext_sizes_refuted",
-                "F13": "presets_convert_full" if st["presets_convert"] else "presets_convert_refuted + presets_convert_partial"}
+                "F12": "aug_lists_hold, data_config_aug_lists_hold (unconditional)" if st["aug_geo_full"]
+                       else "aug_lists_refuted + aug_lists_partial",
+                "F16": "convnext_sizes_hold (unconditional)" if st["convnext_sizes_validated"] else "convnext_sizes_refuted",
+                "F13": "presets_convert_hold, presets_and_heads_convert_hold (unconditional)" if st["presets_convert"]
+                       else "presets_convert_refuted + presets_convert_partial"}
             run.obligation("clause (c): the unbounded reachability check and the bounded exhaustive search (all ordered "
                            "lists of distinct geometric names up to length 4) agree", st["aug_geo_full"] == st["aug_geo_exhaustive4"],
                            str(st))
@@ -1429,11 +1499,25 @@ def _check(run, impl, summary, built, join_perrun):
             "False), ckpt_save_last (True vs None), enable_progress_bar (False vs True), max_epochs (100 vs 10), seed "
             "(1000 vs None); clause (b) is read as: options not fed by any builder parameter hold the schema default",
             "verify_training_cfg is structured at the top level only: unknown nested keys are kept, absent nested keys "
-            "are not filled in (modelled as leaves of the merge schema; compared on perturbed containers)",
+            "are not filled in (modelled as leaves of the merge schema; compared on perturbed containers); top-level VALUES "
+            "meet the declared field: a scalar / None at a section is a ValidationError, a dict / list node is taken verbatim "
+            "at any field, a non-string scalar at name / description / filename / sleap_nn_version is converted to its str() "
+            "(so normalisation is the identity on built configurations, not on arbitrary containers; compared on such containers)",
+            "OmegaConf's typed nodes CONVERT a scalar of another type (123 at a str option -> '123', '12' at an int option -> 12, "
+            "2 / 'Yes' at a bool option -> True, elements of List[T] / Tuple[T, T] likewise) or raise ValidationError: arguments "
+            "outside the documented types are not found 'unmodified' in the training configuration; the property quantifies over "
+            "the documented argument forms, the theorems carry the hypothesis `coercion_free`, and the stream 'mistyped' compares "
+            "the conversions with the model (CfgTree.coerce_scalar) case by case",
+            "string arguments holding OmegaConf interpolation syntax ('${...}') are resolved / rejected by OmegaConf "
+            "(InterpolationKeyError, GrammarParseError): strings are opaque in the model and the generator never emits '${'",
             "verify_training_cfg builds TrainingJobConfig(**cfg) from DictConfig sections: no attrs validator and no oneof "
             "check runs on them, so a YAML / DictConfig with two head types, two backbones, an out-of-range probability "
-            "or an invalid scale passes normalisation unchanged (compared with the model on such containers); the "
-            "property's last clause is about configuration objects, i.e. the constructors, where all of these are rejected",
+            "or an invalid scale passes normalisation unchanged (compared with the model on such containers; theorem "
+            "verify_takes_sections_verbatim).  READING (decided in the round-4 review): 'configuration objects reject ...' "
+            "is about the configuration classes, i.e. their constructors (property metadata: quantifier 'all single-field "
+            "invalid values for the validated fields', observe_at 'exceptions from config constructors', mechanisms attrs "
+            "validators / oneof decorator), where all of these are rejected for all values; a DictConfig loaded from YAML is "
+            "not such an object although ModelTrainer consumes it — not a finding, a documented boundary",
             "attrs validates on assignment with the instance *before* the assignment: PreprocessingConfig().scale = -1.0 "
             "is accepted; oneof is enforced at construction only (outside the property's wording)",
         ]})
@@ -1513,7 +1597,10 @@ def replay(run: core.Run, path: str) -> int:
         if c.get("kind") == "build":
             out = attempt(lambda: impl.builder(c["builder"])(**c["kw"]))
         elif c.get("kind") == "mk":
-            out = attempt(lambda: impl.classes[c["cls"]](**c["kw"]))
+            names = [a.name for a in impl.classes[c["cls"]].__attrs_attrs__]
+            kw = dict(c["kw"])
+            pos = [kw.pop(n) for n in names[:c.get("npos") or 0]]
+            out = attempt(lambda: impl.classes[c["cls"]](*pos, **kw))
         elif c.get("kind") in ("chain", "train"):
             out = attempt(lambda: impl.chain(c["dkw"], c["mkw"], c["tkw"], via_train=c["kind"] == "train"))
         else:
